@@ -12,8 +12,10 @@ direct oracle:   DeepDiff(x, deepcopy(x), **cfg) is empty;  DeepDiff(a, b, **cfg
                  (the last two are inert in ordered mode: the result is compared with the
                  cache_size=0 / default max_passes run of the same configuration)
 """
+import base64
 import copy
 import datetime
+import pickle
 import itertools
 
 from harness import core, values as V, diffcommon as D
@@ -154,22 +156,30 @@ def result_obs(r, view):
         return repr(r)
 
 
+def _fail(ctx, case, t1, t2, what):
+    """ctx.fail with a pickle of the inputs when their repr does not determine them (tzinfo, numpy memory
+    layout, the same container object at several positions)"""
+    try:
+        plain = _is_literal(t1, t2) and pickle.dumps((t1, t2)) == pickle.dumps(eval(repr((t1, t2))))
+    except Exception:
+        plain = False
+    if not plain:
+        case = dict(case, pickle=base64.b64encode(pickle.dumps((t1, t2))).decode("ascii"))
+    return ctx.fail(case, what)
+
+
 def run_cfg(ctx, t1, t2, cfg, is_copy, ip, stats_key):
     from deepdiff import DeepDiff
     a, b = copy.deepcopy(t1), copy.deepcopy(t2)
     sa, sb = snap(a), snap(b)
     case = dict(t1=repr(t1), t2=repr(t2), cfg=cfg, ip=ip)
-    if stats_key == "verdict_exotic" or not _is_literal(t1, t2):
-        import base64
-        import pickle
-        case["pickle"] = base64.b64encode(pickle.dumps((t1, t2))).decode("ascii")   # keeps tzinfo and memory layout
     try:
         r = DeepDiff(a, b, ignore_private_variables=ip, **cfg)
     except Exception as e:  # noqa
-        ctx.fail(dict(case, clause="DeepDiff raised " + type(e).__name__), "DeepDiff raised " + repr(e))
+        _fail(ctx, dict(case, clause="DeepDiff raised " + type(e).__name__), t1, t2, "DeepDiff raised " + repr(e))
         return None
     if snap(a) != sa or snap(b) != sb:
-        ctx.fail(dict(case, clause="inputs modified"), "DeepDiff modified an input")
+        _fail(ctx, dict(case, clause="inputs modified"), t1, t2, "DeepDiff modified an input")
     empty = (len(r) == 0) and (r == {})
     equal = deep_eq(t1, t2)
     ctx.seen((case["t1"], case["t2"], repr(sorted(cfg.items())), ip), nontrivial=(not equal) or (not empty))
@@ -177,8 +187,8 @@ def run_cfg(ctx, t1, t2, cfg, is_copy, ip, stats_key):
     if is_copy:
         ctx.count("clause:copy_evaluated")
         if not empty:
-            ctx.fail(dict(case, clause="non-empty diff for a structural copy", result=repr(r)[:600]),
-                     "DeepDiff(x, deepcopy(x)) is not empty: " + repr(r)[:300])
+            _fail(ctx, dict(case, clause="non-empty diff for a structural copy", result=repr(r)[:600]), t1, t2,
+                  "DeepDiff(x, deepcopy(x)) is not empty: " + repr(r)[:300])
     if empty:
         if ip:
             ctx.count("clause:sound_evaluated(ip=True, modulo __ keys)")
@@ -187,7 +197,7 @@ def run_cfg(ctx, t1, t2, cfg, is_copy, ip, stats_key):
             ctx.count("clause:sound_evaluated(ip=False)")
             ok = equal
         if not ok:
-            ctx.fail(dict(case, clause="empty diff but t1 != t2"), "DeepDiff(t1, t2) is empty although t1 != t2")
+            _fail(ctx, dict(case, clause="empty diff but t1 != t2"), t1, t2, "DeepDiff(t1, t2) is empty although t1 != t2")
     return r
 
 
